@@ -24,6 +24,19 @@ static void WalkSnap(const DataNode & n, std::string & out)
    for (size_t i=0; i<kids.size(); i++) {DataNodeRef k; if (n.GetChild(kids[i].c_str(), k).IsOK()) WalkSnap(*k(), out);}
    out += ' ';
 }
+// every node of the tree lies in the subtree of a session that is connected (host nodes and session nodes are the server's own)
+static void NoNodesOutsideSessions(World & w, const std::string & afterWhat)
+{
+   HSession * any = w.AnySession(); if (any == NULL) return;
+   std::map<std::string, NodeInfo> tree; WalkTree(any->Root(), tree);
+   for (std::map<std::string, NodeInfo>::const_iterator it = tree.begin(); it != tree.end(); ++it)
+   {
+      const std::vector<std::string> cl = SplitPath(it->first); if ((it->first.size() <= 1)||(cl.size() < 2)) continue;
+      const std::string root = "/"+cl[0]+"/"+cl[1]; bool owned = false; for (size_t i=0; i<w.c.size(); i++) if ((w.c[i]->connected)&&(w.c[i]->root == root)) owned = true;
+      if (owned == false) vf::Fail("after [%s] the tree holds the node %s, which is in no connected session's subtree", afterWhat.c_str(), it->first.c_str());
+   }
+}
+
 static std::string Snap(World & w, int vi)
 {
    Client & v = *w.c[vi]; const String vid = v.id.c_str();
@@ -72,7 +85,7 @@ static void RunIsolation(vf::BS & bs)
    if (snap0.find("/o/I0=") == std::string::npos || snap0.find("/o/I1=") == std::string::npos || snap0.find("[I0,I1,]") == std::string::npos) vf::Fail("a fresh session's first ordered children are not named I0, I1: a departed session left a trace in a recycled node: victim state %s", Esc(snap0).c_str());
    if (snap0.find("/a/c=") == std::string::npos) vf::Fail("victim setup incomplete (harness): %s", Esc(snap0).c_str());
    armed = true;
-   gencmd::Opts o; o.victimHost = w.c[1]->host; o.victimId = w.c[1]->id; uint32 addressing = 0; o.pathsAddressingVictim = &addressing; o.aimAtVictim = true;
+   gencmd::Opts o; o.victimHost = w.c[1]->host; o.victimId = w.c[1]->id; uint32 addressing = 0; o.pathsAddressingVictim = &addressing; o.aimAtVictim = true; uint32 beside = 0; o.ownRoot = w.c[0]->root; o.pathsBesideOwnRoot = &beside;
    int steps = 0; uint32 privilegedSent = 0; std::string hist; uint64_t h = 17;
    while((bs.done() == false)&&(steps++ < 40))
    {
@@ -87,13 +100,13 @@ static void RunIsolation(vf::BS & bs)
       const uint32 deniedBefore = deniedReplies;
       (void) w.Send(0, cmd); w.Pump();
       if ((privileged)&&((partialPrivileges == false)||(wc == PR_COMMAND_KICK))) {privilegedSent++; if (deniedReplies != deniedBefore+1) vf::Fail("a privileged command (%s) from a session without that privilege%s did not bounce with PR_RESULT_ERRORACCESSDENIED", d.c_str(), partialPrivileges ? " (it holds the ban privileges only)" : "");}
-      const std::string now = Snap(w, 1);
+      const std::string now = Snap(w, 1); NoNodesOutsideSessions(w, d);
       if (now != snap0) vf::Fail("the victim's state was changed by the adversary command [%s]: before %s after %s", d.c_str(), Esc(snap0).substr(0, 700).c_str(), Esc(now).substr(0, 700).c_str());
       if (witnessSawVictimPaths.size()) vf::Fail("after the adversary command [%s] a subscriber of the victim's nodes was sent [%s]", d.c_str(), witnessSawVictimPaths[0].c_str());
       h = vf::Hash64(bs.p+p0, bs.pos-p0, h);
    }
    w.Stop();
-   vf::Count("mode_isolation"); vf::Count("adversary_commands", (uint64_t)steps); vf::Count("adversary_paths_addressing_the_victim", addressing); vf::Count("privileged_commands_bounced", privilegedSent);
+   vf::Count("mode_isolation"); vf::Count("adversary_commands", (uint64_t)steps); vf::Count("adversary_paths_addressing_the_victim", addressing); vf::Count("privileged_commands_bounced", privilegedSent); if (beside) vf::Count("case_adversary_used_a_path_that_begins_like_its_own_root");
    if (addressing > 0) {vf::Count("case_adversary_addressed_victim_subtree"); vf::NonTrivial(h); if (vf::WantSample()) vf::Sample("adversary vs victim "+vroot+": "+hist);}
 }
 
